@@ -102,7 +102,14 @@ fn prepare_unpriv_tree(rootdir: &std::path::Path, spec: &TreeSpec, seed: u64, op
                 tree::Kind::Link(_) => continue,
                 _ => *rng.pick(&[0o000, 0o200, 0o400]),
             };
-            let _ = fs::set_permissions(&p, fs::Permissions::from_mode(mode));
+            // never through a symlink (a hard link to a symlink of the tree is one: chmod(2) would follow it, and
+            // link bodies such as "/" name real host directories)
+            match fs::symlink_metadata(&p) {
+                Ok(md) if !md.file_type().is_symlink() => {
+                    let _ = fs::set_permissions(&p, fs::Permissions::from_mode(mode));
+                }
+                _ => {}
+            }
         }
     }
 }
